@@ -305,6 +305,14 @@ def _substitution(ck, prog):
     al = _phos_aliases(h)
     for node, base, idx, letter in stores:
         ck.ob("SIB-substitution", c3, letter == "E", expected="E", found=letter, slot="letter", where=h.loc(node))
+        reordered = {n.targets[0].id: unparse(n.value) for n in ast.walk(h.node) if isinstance(n, ast.Assign) and isinstance(n.targets[0], ast.Name)
+                     and unparse(n.value).replace(" ", "") in ("sorted(self.phosphosites)", "sorted(set(self.phosphosites))", "list(set(self.phosphosites))", "list(reversed(self.phosphosites))",
+                                                                "self.phosphosites[::-1]", "sorted(self.phosphosites,reverse=True)")}
+        if isinstance(idx, ast.Subscript) and unparse(idx.value) in reordered:
+            ck.ob("ALG-states", c3, False, expected="the k-th flag of a status tuple belongs to the k-th site as stored (the order get_phosphosites reports)",
+                  found="%s = %s" % (unparse(idx.value), reordered[unparse(idx.value)]), slot="flags-to-sites-order", where=h.loc(node),
+                  note="sites are stored in the order they were set; pairing the flags with a re-ordered copy attaches each state's values to the wrong status tuple")
+            continue
         ck.shape(isinstance(idx, ast.Subscript) and unparse(idx.value).replace(" ", "") in al, "phosphostate enumeration: index read from the phosphosite list", h.loc(node))
 
 
